@@ -20,6 +20,12 @@ CLAIMED = {
   'C07': dict(section='4 C07', technique='Coq proof (axiom-free, lists/integers) for every random stream; correspondence by replaying the recorded RandomState outputs through the model',
               text='Theorem C07_partial: for every label vector and every sequence of random outputs, pairs are sound (distinct points, known labels, same/different class), duplicate-free, at most n_constraints, warning flag iff fewer; chunks have known homogeneous classes, ids < n_chunks, exactly chunk_size members, ValueError iff infeasible; k-NN triplets are exactly all combinations, each once, and in the caller frame carry known labels of the right classes for any neighbour tables with the documented contents. Not mechanised (checked per run): chunk disjointness and that exactly n_chunks are formed. Tie: the implementation runs with a logging RandomState / NearestNeighbors, the Coq model replays the stream and must reproduce the output exactly.',
               note='trusted: Coq kernel, vm_compute, model Model/Constraints.v, numpy RandomState and scikit-learn NearestNeighbors contracts (oracles, certified per run), harness stream decoding; no axioms'),
+  'C06': dict(section='4 C06', technique='Coq proof (axiom-free) of totality/soundness/completeness of the check_input model against the documented form; exhaustive enumeration of the descriptor grammar against check_input and the 17 estimators',
+              text='Theorem C06_holds: the model of check_input (dimension dispatch, preprocessor, scikit-learn checks as oracle model, tuple size, pair labels) only ever returns, raises ValueError, or wraps a failing preprocessor; what it returns has the documented form; well-formed formed data is accepted unchanged and malformed formed data raises ValueError; n_components is accepted iff in [1, n_features]; every predict-time method validates its argument with the documented tuple size (table translated from the source). Tie: outcome class and returned shape of metric_learn._util.check_input on the whole descriptor grammar (6.6k cases thorough / 2.5k sample quick) equal the model; 17 estimators x 9 methods x malformations give ValueError; list/int/Fortran/strided training data give the same model.',
+              note='trusted: Coq kernel, vm_compute, hand-written model Model/Validate.v, oracle model of scikit-learn validators (validated per run), translator for the method table; no axioms'),
+  'C05': dict(section='4 C05', technique='Coq proof (axiom-free) that column-wise preprocessing then stacking forms the tuples, and that validation of indicators+preprocessor equals validation of formed data; bit-identical differential on all estimators and methods',
+              text='Theorem C05_holds: preprocess_tuples with a pointwise preprocessor equals map (map pre1) for every width; ArrayIndexer is X[idx]; check_input on indicators with a preprocessor equals check_input on the formed array (so every downstream value is equal); formed data never consults the preprocessor; a preprocessor exception surfaces as PreprocessorError; every translated method passes preprocessor=self.preprocessor_. Tie: for all 17 estimators, fit and every query method on indices (int8..int64, list, repeats, arbitrary order) through ndarray / list / callable preprocessors give bit-identical models and outputs to formed data; counting and raising callables.',
+              note='trusted: Coq kernel, hand-written models Model/Preproc.v and Model/Validate.v, numpy fancy indexing (oracle); no axioms'),
 }
 
 NOT_YET = {}
